@@ -1131,6 +1131,9 @@ def part_regevo(ck, reqs, post):
             shutil.rmtree(tmp, ignore_errors=True)
         ck.case({k: case[k] for k in ("part", "kind", "pattern", "workers", "seed")}, nontrivial=any(pattern) and not all(pattern))
         ck.count("regevo:" + kind)
+        if err is not None:  # L3: the search itself must not raise (judged again, and shrunk, as a matrix case)
+            mcase = {k: v for k, v in case.items() if k != "part"}
+            ck.fail(fingerprint(mcase, "raises"), f"raises: RegularizedEvolution.search ({options_tag(mcase)})", mcase, err)
         # one model request per ask: population after the tells so far
         told = []
         for ev in events:
@@ -1257,6 +1260,15 @@ def gen_matrix(ck):
         kind = rng.choice(KINDS if nobj > 1 else KINDS[:4])
         cases.append({"cls": cls, "nobj": nobj, "kind": kind, "policy": "min", "surrogate": "ET", "workers": rng.choice([1, 2]),
                       "pattern": pattern, "seed": rng.randint(0, 99)})
+    # (3a) RegularizedEvolution past its random phase (population 3): at least 4 successes, failures of every kind among them
+    for kind in KINDS[:4]:
+        for _ in range(ck.pick(1, 6)):
+            L = rng.randint(7, 10)
+            pattern = [1] * L
+            for i in rng.sample(range(L), rng.randint(1, L - 4)):
+                pattern[i] = 0
+            cases.append({"cls": "RegularizedEvolution", "nobj": 1, "kind": kind, "policy": "min", "surrogate": "ET",
+                          "workers": rng.choice([1, 1, 2]), "pattern": pattern, "seed": rng.randint(0, 99)})
     # the text of the labels of every string-failure case: two label sets (one text, or one text per failure),
     # the run uses the first, the relabelled run the second
     for c in cases:
